@@ -7,6 +7,7 @@ TypeError on int-only positions, float overflow) is a safety obligation.
 """
 import ast
 import copy
+import os
 import z3
 from .types import *  # noqa
 from .values import *  # noqa
@@ -328,7 +329,7 @@ class Executor(object):
             return v
         if not z3.is_expr(v.t) or z3.is_const(v.t):
             return v
-        if not isinstance(v.ty, (IntT, FloatT, BoolT)) and not _has_lambda_or_ite(v.t):
+        if not isinstance(v.ty, (IntT, FloatT, BoolT)) and not _has_lambda_or_ite(v.t) and not os.environ.get('PYVC_NAME_ALL'):
             return v              # constructor / accessor / store terms are fine inside patterns
         if isinstance(v.ty, (IntT, FloatT, BoolT)):
             if not scalars or FP.is_num(z3.simplify(v.t)) or z3.is_true(v.t) or z3.is_false(v.t):
